@@ -135,10 +135,16 @@ def r1(R, repo):
       ok, msg = _element_read_ok(f, par)
       if ok:
         R.ok(key, where, msg)
-      elif ok is None:
-        R.unsure(key_of(f, 'element of the private dict escapes', astu.short(astu.enclosing_stmt(n), 70)), where, msg)
       else:
-        R.fail(key_of(f, 'element of the private dict escapes', astu.short(astu.enclosing_stmt(n), 70)), where, msg)
+        # identity of the construct: the function, how the element leaves it (statement kind) and the element expression -
+        # not the full statement text, which changes under harmless edits (DictKey(k) vs DictKey(key=k))
+        st_ = astu.enclosing_stmt(n)
+        sink = {ast.Return: 'return', ast.Expr: 'expression statement', ast.Assign: 'assignment', ast.AugAssign: 'assignment'}.get(type(st_), type(st_).__name__.lower())
+        ekey = key_of(f, 'element of the private dict escapes', '%s of %s' % (sink, astu.src(par)))
+        if ok is None:
+          R.unsure(ekey, where, msg)
+        else:
+          R.fail(ekey, where, msg)
       continue
     R.unsure(key, where, 'unclassified use of the private dict: `%s`' % astu.short(astu.enclosing_stmt(n)))
   # the skip-copy constructor flag may only be used by tree_unflatten
